@@ -2,8 +2,10 @@ package props
 
 import (
 	"bytes"
+	"encoding"
 	"encoding/gob"
 	"encoding/hex"
+	"encoding/json"
 	"fmt"
 	"math/big"
 	"strings"
@@ -19,12 +21,14 @@ import (
 // C07: scalar encodings are canonical 32-byte big-endian; decoders accept exactly 32 bytes < n.
 
 type caseC07dec struct {
-	Data  string     `json:"data"`            // hex of the byte string presented
-	Via   string     `json:"via"`             // decode | unmarshal | hex
-	Text  string     `json:"text,omitempty"`  // for via=hex: the literal string (may be malformed hex)
-	Prior SV         `json:"prior"`           // receiver before the call
-	Nil   bool       `json:"nilin,omitempty"` // pass a nil slice instead of an empty one
-	Lay   gen.Layout `json:"layout"`          // where the input sits in its backing array (offset / alignment, spare capacity)
+	Data string `json:"data"`           // hex of the byte string presented
+	Via  string `json:"via"`            // decode | unmarshal | hex
+	Text string `json:"text,omitempty"` // for via=hex: the literal string (may be malformed hex)
+	// TextHex: the same as hex of the raw bytes (strings that are not valid UTF-8 do not survive JSON)
+	TextHex string     `json:"text_hex,omitempty"`
+	Prior   SV         `json:"prior"`           // receiver before the call
+	Nil     bool       `json:"nilin,omitempty"` // pass a nil slice instead of an empty one
+	Lay     gen.Layout `json:"layout"`          // where the input sits in its backing array (offset / alignment, spare capacity)
 }
 
 func genScalarBytes(t *rapid.T) []byte {
@@ -137,6 +141,9 @@ var c07dec = gen.Register(&gen.Check[caseC07dec]{
 		c := caseC07dec{Data: hex.EncodeToString(data), Prior: SVGen().Draw(t, "prior")}
 		c.Via = rapid.SampledFrom([]string{"decode", "decode", "unmarshal", "hex"}).Draw(t, "via")
 		if c.Via == "hex" {
+			if k := gen.Pick(t, "textDecoder", 6); k < 2 {
+				c.Via = []string{"text", "json"}[k]
+			}
 			txt := c.Data
 			switch gen.Pick(t, "hexKind", 10) {
 			case 8, 9: // what "lenient" parsers tolerate around a hex string: prefixes, suffixes, quotes, white space
@@ -186,13 +193,31 @@ var c07dec = gen.Register(&gen.Check[caseC07dec]{
 		p := SV{Hex: gen.H(big.NewInt(5))}
 		mk := func(b []byte, via string) caseC07dec {
 			c := caseC07dec{Data: hex.EncodeToString(b), Via: via, Prior: p}
-			if via == "hex" {
+			if isTextVia(via) {
 				c.Text = c.Data
 			}
 			return c
 		}
 		max := new(big.Int).Sub(new(big.Int).Lsh(big.NewInt(1), 256), big.NewInt(1))
 		var out []caseC07dec
+		// every byte value at a few positions of a valid hex string (what a hand-rolled hex digit test lets through)
+		for _, via := range []string{"hex", "text"} {
+			txt := hex.EncodeToString(ref.Bytes32(big.NewInt(0x1234567)))
+			for _, pos := range []int{0, 1, 31, len(txt) - 2, len(txt) - 1} {
+				for b := 0; b < 256; b++ {
+					if byte(b) == txt[pos] {
+						continue
+					}
+					mut := txt[:pos] + string([]byte{byte(b)}) + txt[pos+1:]
+					c := caseC07dec{Via: via, Prior: p, TextHex: hex.EncodeToString([]byte(mut))}
+					if isHex(mut) {
+						d, _ := hex.DecodeString(mut)
+						c.Data = hex.EncodeToString(d)
+					}
+					out = append(out, c)
+				}
+			}
+		}
 		for _, v := range gen.DictFixed(ref.N, gen.DictStride()) {
 			out = append(out, mk(ref.Bytes32(v), "decode"))
 			if w := new(big.Int).Add(v, ref.N); w.BitLen() <= 256 {
@@ -204,7 +229,7 @@ var c07dec = gen.Register(&gen.Check[caseC07dec]{
 		for _, v := range append(gen.WordProducts(ref.N, 64, gen.Neighbours5), gen.WordProducts(ref.N, 32, gen.Neighbours3)...) {
 			out = append(out, mk(ref.Bytes32(v), "decode"))
 		}
-		for _, via := range []string{"decode", "unmarshal", "hex"} {
+		for _, via := range []string{"decode", "unmarshal", "hex", "text", "json"} {
 			out = append(out, mk(nil, via), mk(ref.Bytes32(nm1), via), mk(ref.Bytes32(ref.N), via),
 				mk(ref.Bytes32(new(big.Int).Add(ref.N, bigOne)), via), mk(ref.Bytes32(max), via), mk(ref.Bytes32(new(big.Int)), via),
 				mk(make([]byte, 31), via), mk(make([]byte, 33), via), mk(make([]byte, 64), via), mk([]byte{1}, via))
@@ -283,7 +308,7 @@ var c07enc = gen.Register(&gen.Check[caseC07enc]{
 		if s.S != s0 {
 			return gen.Fail("Encode/mutates", "encoding changed the scalar")
 		}
-		for _, via := range []string{"decode", "unmarshal", "hex"} {
+		for _, via := range []string{"decode", "unmarshal", "hex", "text", "json"} {
 			r := secp256k1.NewScalar().SetUInt64(77)
 			switch via {
 			case "decode":
@@ -355,7 +380,12 @@ var c07enc = gen.Register(&gen.Check[caseC07enc]{
 
 func TestC07Encode(t *testing.T) { c07enc.Execute(t) }
 
+func isTextVia(via string) bool { return via == "hex" || via == "text" || via == "json" }
+
 func c07decOnce(c caseC07dec, o *gen.Obs) error {
+	if c.TextHex != "" {
+		c.Text = string(gen.HexBytes(c.TextHex))
+	}
 	hostileCaller()
 	data := gen.HexBytes(c.Data)
 	if c.Lay.Pre > 0 || c.Lay.Post > 0 {
@@ -381,6 +411,24 @@ func c07decOnce(c caseC07dec, o *gen.Obs) error {
 			data, _ = hex.DecodeString(c.Text)
 		}
 		err = s.DecodeHex(c.Text)
+	case "text", "json":
+		// whatever text decoder the type implements (encoding.TextUnmarshaler: encoding/json, encoding/xml, flag.TextVar) is a hex
+		// decoder of this package too; the unchanged tree implements none and the case is skipped
+		tu, ok := any(s).(encoding.TextUnmarshaler)
+		if !ok {
+			o.Class("skipped:no-text-unmarshaler")
+			return nil
+		}
+		o.Class("text-unmarshaler")
+		hexValid = isHex(c.Text)
+		if hexValid {
+			data, _ = hex.DecodeString(c.Text)
+		}
+		if c.Via == "text" {
+			err = tu.UnmarshalText([]byte(c.Text))
+		} else if q, qerr := json.Marshal(c.Text); qerr == nil {
+			err = json.Unmarshal(q, s)
+		}
 	default:
 		panic("via")
 	}
@@ -417,7 +465,7 @@ func c07decOnce(c caseC07dec, o *gen.Obs) error {
 		if err == nil {
 			return gen.Fail("Decode/accepts-invalid", "%s of %q (%s) accepted", c.Via, c.Data+c.Text, class)
 		}
-		if class != "reject:hex" && !(c.Via == "hex" && c.Text != strings.ToLower(c.Text)) {
+		if class != "reject:hex" && !(isTextVia(c.Via) && c.Text != strings.ToLower(c.Text)) {
 			if e := errorClassDistinct(class, err.Error()); e != nil {
 				return e
 			}
@@ -426,7 +474,7 @@ func c07decOnce(c caseC07dec, o *gen.Obs) error {
 		return nil
 	}
 	if err != nil {
-		if c.Via == "hex" && c.Text != strings.ToLower(c.Text) {
+		if isTextVia(c.Via) && c.Text != strings.ToLower(c.Text) {
 			o.Class("hex-uppercase-rejected")
 			return nil // whether upper-case hex digits are accepted is not part of the statement
 		}
